@@ -37,6 +37,8 @@ func init() {
 			{ID: "C18.R14", Floor: 4, Run: variadicTargetForwarded, Text: "a given target is forwarded (= C05.R15), for the generic wrappers as well"},
 			{ID: "C18.R15", Floor: 3, Run: exchangeListsAgree, Text: "generic Exchange: in each method the call with a relation target and the call without pass the same add/remove lists"},
 			{ID: "C18.R16", Floor: 1, Run: checkedCallsChecked, Text: "exported generic methods not named *Unchecked never call an *Unchecked method of package ecs"},
+			{ID: "C18.R17", Floor: 2, Run: exchangeSettersReplace, Text: "generic Exchange setters replace: Adds/Removes store a list that does not depend on the one stored before"},
+			{ID: "C18.R18", Floor: 15, Run: c10r1, Text: "validate before mutate (= C10.R1): a generic New(target) that panics has not created an entity"},
 		},
 	})
 }
